@@ -336,12 +336,23 @@ def run_enospc(case, prod, images, ref, docs):
         raise OSError(errno.ENOSPC, os.strerror(errno.ENOSPC), str(self))
 
     pathlib.Path.write_text = torn_write_text
+    still_full = None
     try:
         tree, err = harness.guard(harness.open_tree, prod.url, create_cache=True, use_cache=False)
+        if case.get("still_full"):
+            # the disk is still full when the product is opened again with default options: the
+            # open must not depend on being able to write (it was not asked to write anything)
+            still_full = harness.guard(harness.open_tree, prod.url)
     finally:
         pathlib.Path.write_text = original
         pathlib.Path.open = original_open
     out = []
+    if still_full is not None:
+        t2, e2 = still_full
+        if e2 is not None:
+            out.append(harness.disc("poisoned-open", "default open while the disk is still full", "tree identical to the uncached open", harness.exc_text(e2)))
+        else:
+            out.extend(dict(d, where=f"default open while the disk is still full: {d['where']}") for d in harness.diff_flat(ref, harness.flatten(t2), kind="torn-cache-differs")[:3])
     if not injected:
         NOTES["enospc-not-injected"] += 1
     if err is not None and not isinstance(err, OSError):
@@ -408,7 +419,8 @@ def random_prefix2(draw):
 @st.composite
 def enospc_cases(draw):
     return {"kind": "enospc", "level": draw(st.sampled_from(LEVELS)), "image": draw(st.integers(0, 1)),
-            "offset": draw(st.one_of(st.sampled_from([0, 1]), st.integers(0, 40000)))}
+            "offset": draw(st.one_of(st.sampled_from([0, 1]), st.integers(0, 40000))),
+            "still_full": draw(st.booleans())}
 
 
 @st.composite
